@@ -4,6 +4,7 @@ mod l3;
 mod fields;
 mod fields_gen;
 mod msgs;
+mod text;
 
 pub struct Rng(pub u64);
 impl Rng {
@@ -184,6 +185,7 @@ fn main() {
             "iter" => search_scan(&mut rng, budget, "iter"),
             "chunks" => search_chunks(&mut rng, budget),
             "corrupt" => search_corrupt(&mut rng, budget),
+            "text" => match text::search(&mut rng, budget.min(200000)) { Ok(n) => n, Err((p, why)) => found("text", &p, &[], &why, 0) },
             "msmperm" => match msgs::msm_perm_search(&mut rng, budget.min(20000)) { Ok(n) => n, Err((p, why)) => found("msmperm", &p, &[], &why, 0) },
             "builder" => match msgs::builder_search(&mut rng, budget.min(4000)) { Ok(n) => n, Err((p, why)) => found("builder", &p, &[], &why, 0) },
             "classify" => match msgs::classify_search(&mut rng) { Ok(n) => n, Err((p, why)) => found("classify", &p, &[], &why, 0) },
@@ -243,6 +245,7 @@ fn main() {
             "iter" => l3::check_iter(&inp),
             "chunks" => l3::check_chunks(&inp, &cuts),
             "msgs" => msgs::check_payload(&inp),
+            "text" => { let mut rng = Rng(0x1234567); text::search(&mut rng, 20000).err().map(|e| e.1) }
             "msmperm" => { let mut rng = Rng(0x1234567); msgs::msm_perm_search(&mut rng, 5000).err().map(|e| e.1) }
             "builder" => { let mut rng = Rng(0x1234567); msgs::builder_search(&mut rng, 2000).err().map(|e| e.1) }
             "classify" => { let mut rng = Rng(0x1234567); msgs::classify_search(&mut rng).err().map(|e| e.1) }
